@@ -132,7 +132,7 @@ Definition ex_pipeline : list node :=
   [ nd (lib_src false) [("value", VNum 3)] None;
     nd (lib_mul false) [] None;                       (* factor from the initial context *)
     nd lib_probe [] (Some "k");
-    nd (lib_rename "k" "j") [] None;
+    nd (lib_rename none_value_is_noop "k" "j") [] None;
     nd (lib_template [Lit "t_"; Hole "j"] "path") [] None;
     nd (lib_mul true) [] None;                        (* context factor 5 beats the default 2 *)
     nd (lib_ctxwrite "seq") [] None;
